@@ -175,7 +175,7 @@ def run(ctx, verdict, replay=None, model_ok=True):
         bases = [("replay", job["spec"])]
     else:
         bases = corpus_specs()
-        nb = 24 if thorough else 8
+        nb = 120 if thorough else 28
         for i in range(nb):
             shapes = {k: rng.random() < 0.5 for k in pipegen.SHAPE_KEYS}
             shapes["nested_params"] = False   # the value of a nested parameter is C03's subject
@@ -190,7 +190,7 @@ def run(ctx, verdict, replay=None, model_ok=True):
         langs = spec["languages"]
         variants.append((bi, "base", None, spec))
         subsets = []
-        if thorough and bi < 2:
+        if thorough and bi < 4:
             for k in range(1, len(langs)):
                 subsets += [list(c) for c in itertools.combinations(langs, k)]
         else:
@@ -212,15 +212,18 @@ def run(ctx, verdict, replay=None, model_ok=True):
         cfgs.append(pipelib.write_case(os.path.join(ctx.scratch, "case_%04d" % i), pipegen.render(v[3])))
     ctx.log("%d base pipelines, %d variants" % (len(bases), len(variants)))
 
+    def J(i, **kw):
+        return dict({"config": cfgs[i], "parameters": variants[i][3].get("extra_parameters"), "timeout_s": 90 if thorough else 40}, **kw)
+
     # ---------------- run the pipeline on every variant
     if forced:
-        jobs = [{"config": c, "n": 1, "orders": [{"default": "sorted"}]} for c in cfgs]
+        jobs = [J(i, n=1, orders=[{"default": "sorted"}]) for i in range(len(cfgs))]
         res = pipelib.run_jobs(forced, "run", jobs)
-        runs = [(r["variants"][0] if r else None) for r in res]
+        runs = [pipelib.variants_of(r)[0] for r in res]
     else:
-        jobs = [{"config": c, "n": 3} for c in cfgs]
+        jobs = [J(i, n=3) for i in range(len(cfgs))]
         res = pipelib.run_jobs(plain, "run", jobs)
-        runs = [(r["variants"][0] if r and len(r["variants"]) == 1 else None) for r in res]
+        runs = [(pipelib.variants_of(r)[0] if len(pipelib.variants_of(r)) == 1 else None) for r in res]
     evaluations = len(jobs) * (1 if forced else 3)
 
     base_run = {}
@@ -280,7 +283,7 @@ def run(ctx, verdict, replay=None, model_ok=True):
                      {"expected": want, "status": V["status"], "err": V.get("err_text")})
 
     # ---------------- Consolidate: model vs implementation, and union-or-conflict on the implementation
-    cres = pipelib.run_jobs(plain, "consolidate", [{"config": c} for c in cfgs])
+    cres = pipelib.run_jobs(plain, "consolidate", [J(i) for i in range(len(cfgs))])
     evaluations += len(cfgs)
     usable = [i for i, r in enumerate(cres) if r and r["status"] in ("Ok", "Err")]
     mm, pf = [], []
@@ -317,17 +320,22 @@ def run(ctx, verdict, replay=None, model_ok=True):
 
     # ---------------- mutation snapshots (unmodified build) and context sharing (forced, sorted)
     base_idx = [i for i, v in enumerate(variants) if v[1] == "base"]
-    mres = pipelib.run_jobs(plain, "mutate", [{"config": cfgs[i]} for i in base_idx])
+    mres = pipelib.run_jobs(plain, "mutate", [J(i) for i in base_idx])
     evaluations += len(base_idx)
     mutated, ctx_checked = 0, 0
     for i, r in zip(base_idx, mres):
-        if r is None or r["status"] != "Ok":
+        B = base_run.get(variants[i][0])
+        if r is None or r["status"] in ("Timeout", "Panic"):
+            if B is not None and B["status"] == "Ok":
+                fail("mutation", "hang-or-crash", i, {"status": r["status"] if r else "Crash", "err": (r or {}).get("err_text")})
+            continue
+        if r["status"] != "Ok":
             continue
         for m in r.get("mutations") or []:
             mutated += 1
             fail("mutation", m["stage"], i, {"language": m["lang"], "paths": m["paths"]})
     if forced:
-        sres = pipelib.run_jobs(forced, "mutate", [{"config": cfgs[i], "order": "sorted"} for i in base_idx])
+        sres = pipelib.run_jobs(forced, "mutate", [J(i, order="sorted") for i in base_idx])
         evaluations += len(base_idx)
         for i, r in zip(base_idx, sres):
             if r is None or r["status"] != "Ok":
